@@ -92,8 +92,20 @@ pub fn numeric_texts() -> Vec<String> {
             }
         }
     }
+    // a count times any unit of time at the edge of 32/63/64 bits (also for carriers whose
+    // emitted constant is the bare count: some arithmetic may still be done on count * unit)
+    for unit in [60u128, 1440, 3600, 86_400, 604_800] {
+        for top in [1u128 << 31, 1 << 32, 1 << 63, 1 << 64] {
+            for d in -1i128..=1 {
+                digit_strings.push(((top / unit) as i128 + d).to_string());
+                digit_strings.push((((top - 1) / unit) as i128 + d).to_string());
+            }
+        }
+    }
     digit_strings.push("9".repeat(40));
     digit_strings.push("1".repeat(25));
+    digit_strings.sort();
+    digit_strings.dedup();
     for c in c07::carriers() {
         for d in &digit_strings {
             for sign in ["", "+", "-"] {
